@@ -96,6 +96,14 @@ def r1(ctx):
     for t, pol in hits:
         ctx.check("C10.R1", bool(su) and all(g.dominates(s, t, follow_exc=False) for s in su) and all(g.dominates(o, s, follow_exc=False) for o in olds for s in su), key(f, "compare-after-setup"), site(f, t),
                   "the address comparison does not compare the address before setup() with the one after", "old captured before setup, compared after")
+    # sock.close_sockets() closes *and unlinks* a unix socket path: only the master's stop() may use it; a worker that is
+    # retiring closes its own descriptors (`s.close()`), which leaves the path -- and the master's listener -- reachable
+    for ff in repo.funcs():
+        for c, q in repo.calls_in(ff):
+            if q == "gunicorn.sock.close_sockets":
+                ctx.check("C10.R1", ff.qualname == ARB + ".stop", key(ff, "close_sockets-caller"), site(ff, c),
+                          "%s calls sock.close_sockets(): on a unix bind it removes the socket path while the master keeps listening on it -- every later connect() fails although the bind address is unchanged" % ff.short,
+                          "close_sockets only from Arbiter.stop")
     # who else touches listeners in the arbiter
     allowed = {ARB + ".start", ARB + ".stop", ARB + ".reload", ARB + ".__init__"}
     for ff in repo.cls(ARB).methods.values():
